@@ -77,3 +77,14 @@ META["C06"] = M(
          "sides 1-D and multi-column, algorithm omitted/Auto/LU/Cholesky/CG/GMRES with tolerances 1e-3..1e-10; x = inv(A,alg)@b, "
          "solve(A,b,alg), inv(A).to_dense(), and on direct paths inv(A).T/.H and b@inv(A) compared with the dense reference under "
          "the path's own error bound; plus both sides of the 10^6-entry Auto switch (n=999, 1001); distinct = structure+alg+rhs")
+
+META["C07"] = M(
+    shards={"quick": 16, "thorough": 64}, budget={"quick": 45, "thorough": 800},
+    floors={"quick": {"evals": 8000, "distinct": 800}, "thorough": {"evals": 300000, "distinct": 30000}},
+    required=["logabs", "sign", "sign-unit-modulus", "det-reconstructed", "logdet", "sign-real-pm1"],
+    rule="non-singular well-conditioned operator trees (products of square factors, Kronecker with unequal factor sizes, BlockDiag "
+         "with multiplicities, Diagonal/Triangular with negative and complex entries, ScalarMul of every size n with negative/"
+         "complex scalar, Identity, permutations of both parities, dense general and PSD), scaled so that |det| lies on both sides "
+         "of 1, x every (log_alg, trace_alg) pair with a deterministic trace (omitted, Auto, Cholesky, LU, Lanczos/Arnoldi with "
+         "max_iters >= n and exact trace); slogdet/logdet compared with numpy.linalg.slogdet of the reference matrix; "
+         "distinct = structure + algorithm pair")
